@@ -252,6 +252,7 @@ pub fn execute(plan: &Plan, ctx: &mut Ctx) {
                 match input {
                     Out::None => ctx.count("fault.absent"),
                     Out::Err(Er::Other(1)) => ctx.count("fault.err1"),
+                    Out::Err(Er::FromNone) => ctx.count("fault.err_from_none"),
                     Out::Err(_) => ctx.count("fault.err2"),
                     _ => {}
                 }
